@@ -15,12 +15,20 @@ Empty == [x \in {} |-> 0]
 Put(fn, k, v) == [x \in (DOMAIN fn) \cup {k} |-> IF x = k THEN v ELSE fn[x]]
 Del(fn, k) == [x \in (DOMAIN fn) \ {k} |-> fn[x]]
 
-S0 == [n |-> 0, cnt |-> 0, open |-> Empty, phase |-> "start"]
+S0 == [n |-> 0, cnt |-> 0, open |-> Empty, phase |-> "start", ret |-> 0, over |-> 0, burst |-> FALSE, km |-> 0, kn |-> 0, args |-> 0]
 TraceInit == sc \in 1..NScen /\ l = First(sc) /\ s = S0
 Step(name) == l <= Last(sc) /\ Ev.ev = name /\ l' = l + 1 /\ sc' = sc
 Silent == l' = l /\ sc' = sc
 
-TimesBegin == Step("TimesBegin") /\ s' = [s EXCEPT !.n = Ev.n, !.cnt = 0, !.phase = "calls"]
+TimesBegin == Step("TimesBegin") /\ s' = [s EXCEPT !.n = Ev.n, !.cnt = 0, !.phase = "calls", !.km = Ev.k_match, !.kn = Ev.k_nomatch]
+
+\* tight-loop rounds report per-thread outcome counts only: every call overlaps every other,
+\* so any linearisation is allowed and the specification constrains the totals
+Burst ==
+  /\ Step("Burst") /\ s.phase = "calls" /\ Ev.other = 0
+  /\ s' = [s EXCEPT !.burst = TRUE, !.ret = @ + Ev.ret, !.over = @ + Ev.over, !.args = @ + Ev.args, !.cnt = @ + Ev.ret + Ev.over]
+
+Min(a, b) == IF a < b THEN a ELSE b
 
 CallStart ==
   /\ Step("CallStart") /\ s.phase = "calls"
@@ -41,6 +49,7 @@ CallEnd ==
 
 Exit ==
   /\ Step("Exit") /\ DOMAIN s.open = {}
+  /\ s.burst => (s.ret = Min(s.km, s.n) /\ s.over = s.km - Min(s.km, s.n) /\ s.args = s.kn)
   /\ IF s.cnt = s.n THEN Ev.outcome = "ok"
      ELSE Ev.outcome = "panic" /\ Ev.cls = "count" /\ Ev.exp = s.n /\ Ev.act = s.cnt
   /\ s' = [s EXCEPT !.phase = "done"]
@@ -49,7 +58,7 @@ ChildExit == Step("ChildExit") /\ Ev.signal = 0 /\ Ev.code = 0 /\ s' = s
 Note == Step("Note") /\ s' = s
 Other == l <= Last(sc) /\ Ev.ev \in {"Mmap", "Munmap", "Mprotect", "Write", "Flush"} /\ l' = l + 1 /\ sc' = sc /\ s' = s
 
-TraceNext == TimesBegin \/ CallStart \/ CallEnd \/ Exit \/ ChildExit \/ Note \/ Other \/ (\E id \in DOMAIN s.open : Fire(id))
+TraceNext == TimesBegin \/ Burst \/ CallStart \/ CallEnd \/ Exit \/ ChildExit \/ Note \/ Other \/ (\E id \in DOMAIN s.open : Fire(id))
 TraceSpec == TraceInit /\ [][TraceNext]_tvars
 Track == TrackProgress(sc, l)
 Post == PrintProgress
